@@ -426,6 +426,17 @@ func runTO(c tcase, o *topts) (res string, inconclusive string) {
 	if o == nil {
 		o = &topts{}
 	}
+	// round 8b: in the RPC-hop cases this peer is a real libp2p host
+	peerN := peerN
+	if o.hop != nil {
+		self := c.self
+		peerN = func(i int) peer.ID {
+			if i == self {
+				return o.hop.a.ID()
+			}
+			return common.PeerN(i)
+		}
+	}
 	fds := &faultyDS{Datastore: inmem.New()}
 	st, err := dsstate.New(fds, "", nil)
 	if err != nil {
@@ -613,6 +624,9 @@ func runTO(c tcase, o *topts) (res string, inconclusive string) {
 	fds.mode = o.listMode
 	if o.recoverMode != "" {
 		return observeRecover(ctx, tr, c, fake, index, o.recoverMode, &released)
+	}
+	if o.hop != nil {
+		return observeHop(tr, st, c, fake, index, o.hop, &released)
 	}
 
 	// observations
@@ -1738,6 +1752,20 @@ func main() {
 		emitT(c.t)
 		curOpts, curInput = nil, ""
 	}
+	var hopN *hopNet
+	emitTP := func(c tcase) {
+		if hopN == nil {
+			var err error
+			if hopN, err = newHopNet(context.Background()); err != nil {
+				out.Line("# inconclusive cannot set up loopback hosts: %s", strings.ReplaceAll(err.Error(), "\n", " "))
+				out.Flush()
+				os.Exit(0)
+			}
+		}
+		curOpts, curInput = &topts{hop: hopN}, "C06 tp"+strings.TrimPrefix(c.input(), "C06 t")
+		emitT(c)
+		curOpts, curInput = nil, ""
+	}
 	emitTR := func(c trcase) {
 		curOpts, curInput = &topts{recoverMode: c.mode}, c.input()
 		emitT(c.t)
@@ -1798,6 +1826,12 @@ func main() {
 				} else {
 					out.Line("# skipped unparsable %s", line)
 				}
+			case "tp":
+				if c, ok := parseT(f[2:]); ok {
+					emitTP(c)
+				} else {
+					out.Line("# skipped unparsable %s", line)
+				}
 			case "tf":
 				if c, ok := parseTF(f[2:]); ok {
 					emitTF(c)
@@ -1848,6 +1882,8 @@ func main() {
 			emitTR(genTR(r, k, total, thorough))
 		} else if mode == "fs" {
 			emitFS(genFS(r))
+		} else if mode == "tp" {
+			emitTP(genTP(r, k, total, thorough))
 		} else if k%2 == 0 {
 			emitG(genGc(r))
 		} else {
